@@ -1,6 +1,495 @@
 package main
 
-func cmdCheck(args []string) int    { return 2 }
-func cmdLock(args []string) int     { return 2 }
-func cmdReplay(args []string) int   { return 2 }
-func cmdSelftest(args []string) int { return 2 }
+// govc check / lock: per-property verification runs, evidence, VIOLATION lines.
+
+import (
+	"bufio"
+	"flag"
+	"fmt"
+	"os"
+	"path/filepath"
+	"runtime"
+	"sort"
+	"strconv"
+	"strings"
+	"time"
+)
+
+type knownFinding struct {
+	Prop, Obligation, Text string
+	Fixed                  bool
+}
+
+func loadKnownFindings(path string) []knownFinding {
+	var out []knownFinding
+	f, err := os.Open(path)
+	if err != nil {
+		return nil
+	}
+	defer f.Close()
+	sc := bufio.NewScanner(f)
+	for sc.Scan() {
+		l := strings.TrimSpace(sc.Text())
+		if l == "" || strings.HasPrefix(l, "#") {
+			continue
+		}
+		kf := knownFinding{}
+		switch {
+		case strings.HasPrefix(l, "finding:"):
+			l = strings.TrimSpace(l[len("finding:"):])
+		case strings.HasPrefix(l, "fixed:"):
+			kf.Fixed = true
+			l = strings.TrimSpace(l[len("fixed:"):])
+		default:
+			continue
+		}
+		// property=Cxx obligation=<name up to " :: "> :: text
+		if i := strings.Index(l, " :: "); i >= 0 {
+			kf.Text = strings.TrimSpace(l[i+4:])
+			l = l[:i]
+		}
+		for _, f := range strings.SplitN(l, " ", 2) {
+			if strings.HasPrefix(f, "property=") {
+				kf.Prop = f[len("property="):]
+			}
+		}
+		if i := strings.Index(l, "obligation="); i >= 0 {
+			kf.Obligation = strings.TrimSpace(l[i+len("obligation="):])
+		}
+		out = append(out, kf)
+	}
+	return out
+}
+
+// lock file: property -> obligation names expected to exist and be discharged
+func loadLock(path string) map[string]map[string]bool {
+	out := map[string]map[string]bool{}
+	f, err := os.Open(path)
+	if err != nil {
+		return out
+	}
+	defer f.Close()
+	sc := bufio.NewScanner(f)
+	sc.Buffer(make([]byte, 1<<20), 1<<20)
+	for sc.Scan() {
+		l := sc.Text()
+		i := strings.Index(l, "\t")
+		if i < 0 {
+			continue
+		}
+		p, n := l[:i], l[i+1:]
+		if out[p] == nil {
+			out[p] = map[string]bool{}
+		}
+		out[p][n] = true
+	}
+	return out
+}
+
+type propRun struct {
+	id       string
+	results  []*FuncResult
+	lemmas   []*FuncResult
+	trusted  []string
+	scan     []string
+	notes    []string
+	loadS    float64
+	genS     float64
+	solveS   float64
+}
+
+func propsOf(fc *FuncContract) []string { return fc.Props }
+
+func hasProp(ps []string, id string) bool {
+	for _, p := range ps {
+		if p == id {
+			return true
+		}
+	}
+	return false
+}
+
+func runProperty(ld *Loader, specs *Specs, id string, timeoutS int, outDir string) *propRun {
+	pr := &propRun{id: id}
+	t0 := time.Now()
+	for _, fk := range specs.Order {
+		fc := specs.Funcs[fk]
+		if !hasProp(fc.Props, id) || fc.Inline && len(fc.Ensures) == 0 && len(fc.Loops) == 0 {
+			continue
+		}
+		if fc.Trusted {
+			pr.trusted = append(pr.trusted, "trusted contract (not verified): "+fc.Key)
+			continue
+		}
+		sweep := fc.Pragmas["mode"] == "safety"
+		pr.results = append(pr.results, VerifyFunc(ld, specs, fk, sweep))
+	}
+	for _, lm := range specs.Lemmas {
+		if !hasProp(lm.Props, id) {
+			continue
+		}
+		if lm.Trusted {
+			pr.trusted = append(pr.trusted, "trusted lemma (stated, not checked): "+lm.Name+": "+lm.C.Text)
+			continue
+		}
+		pr.lemmas = append(pr.lemmas, VerifyLemma(ld, specs, lm))
+	}
+	pr.genS = time.Since(t0).Seconds()
+	t1 := time.Now()
+	var vcs []*VC
+	for _, r := range append(append([]*FuncResult(nil), pr.results...), pr.lemmas...) {
+		if r.VC != nil && r.OutOfSubset == "" {
+			vcs = append(vcs, r.VC)
+		}
+	}
+	Discharge(vcs, outDir, timeoutS, runtime.NumCPU())
+	pr.solveS = time.Since(t1).Seconds()
+	return pr
+}
+
+func contractDerived(kind string) bool {
+	switch kind {
+	case "post", "inv-entry", "inv-keep", "variant", "frame", "event", "pre", "lemma", "lock", "monitor", "stable", "objinv", "nopanic":
+		return true
+	}
+	return false
+}
+
+func oblOK(o *Obligation) bool {
+	if o.Cover {
+		return o.Status != "unsat"
+	}
+	return o.Status == "unsat"
+}
+
+func cmdCheck(args []string) int {
+	fs := flag.NewFlagSet("check", flag.ExitOnError)
+	id := fs.String("p", "", "property id")
+	tier := fs.String("tier", "", "quick|thorough")
+	repo := fs.String("repo", repoDir, "repository root")
+	keep := fs.Bool("keep", false, "keep SMT files")
+	noReplay := fs.Bool("noreplay", false, "skip replay")
+	outRoot := fs.String("out", verifDir, "where evidence/ and out/ are written")
+	fs.Parse(args)
+	if *tier == "" {
+		*tier = os.Getenv("VERIF_TIER")
+	}
+	if *tier == "" {
+		*tier = "quick"
+	}
+	seed := int64(1)
+	if s := os.Getenv("VERIF_SEED"); s != "" {
+		if n, err := strconv.ParseInt(s, 10, 64); err == nil {
+			seed = n
+		}
+	}
+	timeoutS := 10
+	if *tier == "thorough" {
+		timeoutS = 60
+	}
+	start := time.Now()
+	evPath := filepath.Join(*outRoot, "evidence", *id+".json")
+	os.Remove(evPath)
+	ld, specs, err := Load(*repo, verifDir)
+	if err != nil {
+		fmt.Fprintln(os.Stderr, "govc: cannot load /repo with -tags verif:", err)
+		// a tree that does not build cannot be verified; report as broken check input
+		return 2
+	}
+	loadS := time.Since(start).Seconds()
+	outDir := filepath.Join(*outRoot, "out", "smt", *id)
+	os.RemoveAll(outDir)
+	pr := runProperty(ld, specs, *id, timeoutS, outDir)
+	pr.loadS = loadS
+	if len(pr.results)+len(pr.lemmas) == 0 {
+		fmt.Fprintf(os.Stderr, "govc: no function or lemma under contract for property %s\n", *id)
+		return 2
+	}
+	known := loadKnownFindings(filepath.Join(verifDir, "known_findings.txt"))
+	lock := loadLock(filepath.Join(verifDir, "obligations.lock"))[*id]
+
+	var all []*Obligation
+	generated := map[string]bool{}
+	type fail struct {
+		name, reason string
+		o            *Obligation
+		fr           *FuncResult
+	}
+	var fails []fail
+	funcsInfo := []map[string]interface{}{}
+	byBackend := map[string]int{}
+	var sumT, maxT float64
+	covers, coversSat := 0, 0
+	stubSet := map[string]bool{}
+	var outOfSubset []string
+	for _, r := range append(append([]*FuncResult(nil), pr.results...), pr.lemmas...) {
+		info := map[string]interface{}{"function": r.Key}
+		if r.OutOfSubset != "" {
+			info["out_of_subset"] = r.OutOfSubset
+			outOfSubset = append(outOfSubset, r.Key+": "+r.OutOfSubset)
+			// every locked obligation of this function is undecided
+			n := 0
+			for name := range lock {
+				if strings.HasPrefix(name, r.Key+"#") {
+					n++
+				}
+			}
+			fails = append(fails, fail{name: r.Key + "#subset", reason: "function is outside the verified subset, so none of its obligations is discharged: " + r.OutOfSubset, fr: r})
+			funcsInfo = append(funcsInfo, info)
+			continue
+		}
+		kinds := map[string]int{}
+		for _, o := range r.VC.obls {
+			generated[o.Name] = true
+			if o.Cover {
+				covers++
+				if o.Status == "sat" {
+					coversSat++
+				}
+				if o.Status == "unsat" {
+					fails = append(fails, fail{name: o.Name, reason: "vacuity guard failed: the formula that must be satisfiable is unsatisfiable (contradictory precondition/invariant or unreachable exit)", o: o, fr: r})
+				}
+				continue
+			}
+			all = append(all, o)
+			kinds[o.Kind]++
+			byBackend[o.Backend]++
+			sumT += o.TimeS
+			if o.TimeS > maxT {
+				maxT = o.TimeS
+			}
+			if !oblOK(o) {
+				fails = append(fails, fail{name: o.Name, reason: "solver answer: " + o.Status, o: o, fr: r})
+			}
+		}
+		info["obligations_by_kind"] = kinds
+		info["stubs"] = r.StubsUsed
+		info["inlined"] = r.Inlined
+		info["callee_contracts_used"] = r.Callees
+		if r.SafetyOnly {
+			info["mode"] = "safety sweep (automatic obligations only)"
+		}
+		for _, s := range r.StubsUsed {
+			stubSet[s] = true
+		}
+		funcsInfo = append(funcsInfo, info)
+	}
+	// locked contract-derived obligations must still be generated
+	for name := range lock {
+		if generated[name] {
+			continue
+		}
+		i := strings.Index(name, "#")
+		kind := ""
+		if i >= 0 {
+			rest := name[i+1:]
+			if j := strings.Index(rest, ":"); j >= 0 {
+				kind = rest[:j]
+			}
+		}
+		if !contractDerived(kind) {
+			continue
+		}
+		skip := false
+		for _, f := range fails {
+			if f.fr != nil && f.o == nil && strings.HasPrefix(name, f.fr.Key+"#") {
+				skip = true
+			}
+		}
+		if !skip {
+			fails = append(fails, fail{name: name, reason: "obligation was discharged on the unchanged tree and is no longer generated (its anchor vanished)"})
+		}
+	}
+	sort.Slice(fails, func(i, j int) bool { return fails[i].name < fails[j].name })
+
+	// bounded stand-ins
+	var bounded []map[string]interface{}
+	bres := runBounded(*id, *tier, seed, *repo)
+	for _, b := range bres {
+		bounded = append(bounded, b.info)
+		for _, v := range b.violations {
+			fails = append(fails, fail{name: v.name, reason: v.reason})
+		}
+	}
+
+	violations := 0
+	var knownHit []string
+	replayDir := filepath.Join(*outRoot, "out", "replay", *id)
+	os.RemoveAll(replayDir)
+	for _, f := range fails {
+		matched := false
+		for _, k := range known {
+			if !k.Fixed && k.Prop == *id && k.Obligation == f.name {
+				fmt.Printf("KNOWN-FINDING: property=%s %s :: %s\n", *id, f.name, k.Text)
+				knownHit = append(knownHit, f.name)
+				matched = true
+			}
+		}
+		if matched {
+			continue
+		}
+		violations++
+		rp := filepath.Join(replayDir, sanitize(f.name)+".json")
+		confirmed := false
+		rec := map[string]interface{}{"property": *id, "obligation": f.name, "reason": f.reason}
+		if f.o != nil {
+			rec["status"] = f.o.Status
+			rec["backend"] = f.o.Backend
+			rec["position"] = f.o.Pos
+			rec["solver_output"] = truncate(f.o.Raw, 4000)
+			if f.o.Model != nil {
+				m := map[string]string{}
+				for k, v := range f.o.Model {
+					lbl := f.fr.ParamSyms[k]
+					if lbl == "" {
+						lbl = k
+					}
+					m[lbl] = v
+				}
+				rec["model"] = m
+			}
+			if !*noReplay {
+				rr := replayObligation(ld, specs, f.fr, f.o, *repo)
+				rec["replay"] = rr
+				confirmed = rr.Confirmed
+			}
+		}
+		writeJSON(rp, rec)
+		if confirmed {
+			fmt.Printf("VIOLATION property=%s replay=%s\n", *id, rp)
+		} else {
+			fmt.Printf("VIOLATION property=%s replay=%s no-failing-input-found\n", *id, rp)
+		}
+		fmt.Printf("  obligation %s: %s\n", f.name, f.reason)
+	}
+	discharged := 0
+	var samples []map[string]interface{}
+	for _, o := range all {
+		if oblOK(o) {
+			discharged++
+		}
+	}
+	step := len(all)/6 + 1
+	for i := 0; i < len(all); i += step {
+		o := all[i]
+		samples = append(samples, map[string]interface{}{"obligation": o.Name, "kind": o.Kind, "status": o.Status, "backend": o.Backend, "time_s": round3(o.TimeS), "smt_bytes": o.SMTSize, "at": o.Pos})
+	}
+	var trusted []string
+	trusted = append(trusted, "x/tools go/ssa builder (NaiveForm) as the semantics of the Go source; gc compiler and runtime",
+		"govc itself (VC generator, memory model, spec parser)", "SMT solvers z3 5.1.0 (z3-new), z3 4.8.12, cvc5 1.0.3: unsat answers trusted")
+	for _, s := range sortedKeys(stubSet) {
+		trusted = append(trusted, "assumed library contract (stub): "+s)
+	}
+	trusted = append(trusted, pr.trusted...)
+	var assumptions []string
+	assumptions = append(assumptions, "integers are mathematical; every arithmetic operation and integer conversion carries a discharged no-overflow obligation, so the mathematical result is the machine result",
+		"floating point: uninterpreted operations (expression equality only) unless the function has pragma 'floats real'",
+		"strings: uninterpreted sort, literals distinct; no string-language reasoning")
+	for _, s := range specs.Scan {
+		assumptions = append(assumptions, "scan: "+s)
+	}
+	assumptions = append(assumptions, ld.notes...)
+	assumptions = append(assumptions, notCovered[*id]...)
+	ev := evidence{PropertyID: *id, Tier: *tier, Seed: seed, Level: "proof", Assumptions: assumptions, Violations: violations,
+		WallS: round3(time.Since(start).Seconds())}
+	ev.Coverage = map[string]interface{}{
+		"obligations":  len(all),
+		"discharged":   discharged,
+		"checker_cmd":  fmt.Sprintf("/verif/bin/govc check -p %s -tier %s  (per obligation: z3-new | z3 | cvc5 raced, timeout %ds)", *id, *tier, timeoutS),
+		"trusted_base": trusted,
+		"functions":    funcsInfo,
+		"by_backend":   byBackend,
+		"solver_time_s": map[string]float64{"sum": round3(sumT), "max": round3(maxT), "load": round3(pr.loadS), "vcgen": round3(pr.genS), "solve_wall": round3(pr.solveS)},
+		"samples":      samples,
+		"covers":       map[string]int{"run": covers, "sat": coversSat},
+		"out_of_subset": outOfSubset,
+		"bounded_standins": bounded,
+		"known_findings_matched": knownHit,
+		"arithmetic":   "mathematical integers + overflow obligations; floats uninterpreted unless stated",
+	}
+	if err := writeJSON(evPath, ev); err != nil {
+		fmt.Fprintln(os.Stderr, "govc: cannot write evidence:", err)
+		return 2
+	}
+	if !*keep {
+		os.RemoveAll(outDir)
+	}
+	fmt.Printf("property %s: %d functions/lemmas, %d obligations, %d discharged, %d covers (%d sat), %d violations, %.1fs\n",
+		*id, len(pr.results)+len(pr.lemmas), len(all), discharged, covers, coversSat, violations, time.Since(start).Seconds())
+	if violations > 0 {
+		return 1
+	}
+	return 0
+}
+
+func truncate(s string, n int) string {
+	if len(s) > n {
+		return s[:n] + "…"
+	}
+	return s
+}
+
+func round3(f float64) float64 { return float64(int64(f*1000+0.5)) / 1000 }
+
+// cmdLock regenerates obligations.lock from the current tree (only obligations that discharge).
+func cmdLock(args []string) int {
+	fs := flag.NewFlagSet("lock", flag.ExitOnError)
+	repo := fs.String("repo", repoDir, "")
+	only := fs.String("p", "", "only these properties (comma separated)")
+	fs.Parse(args)
+	ld, specs, err := Load(*repo, verifDir)
+	if err != nil {
+		fmt.Fprintln(os.Stderr, err)
+		return 2
+	}
+	ids := map[string]bool{}
+	for _, fc := range specs.Funcs {
+		for _, p := range fc.Props {
+			ids[p] = true
+		}
+	}
+	for _, lm := range specs.Lemmas {
+		for _, p := range lm.Props {
+			ids[p] = true
+		}
+	}
+	lockPath := filepath.Join(verifDir, "obligations.lock")
+	old := loadLock(lockPath)
+	var lines []string
+	bad := 0
+	for _, id := range sortedKeys(ids) {
+		if *only != "" && !strings.Contains(","+*only+",", ","+id+",") {
+			for n := range old[id] {
+				lines = append(lines, id+"\t"+n)
+			}
+			continue
+		}
+		outDir := filepath.Join(os.TempDir(), fmt.Sprintf("govc-lock-%d", os.Getpid()))
+		pr := runProperty(ld, specs, id, 10, outDir)
+		os.RemoveAll(outDir)
+		for _, r := range append(append([]*FuncResult(nil), pr.results...), pr.lemmas...) {
+			if r.OutOfSubset != "" {
+				fmt.Printf("%s: OUT OF SUBSET %s: %s\n", id, r.Key, r.OutOfSubset)
+				bad++
+				continue
+			}
+			for _, o := range r.VC.obls {
+				if o.Cover {
+					continue
+				}
+				if !oblOK(o) {
+					fmt.Printf("%s: NOT DISCHARGED %s (%s)\n", id, o.Name, o.Status)
+					bad++
+					continue
+				}
+				lines = append(lines, id+"\t"+o.Name)
+			}
+		}
+	}
+	sort.Strings(lines)
+	os.WriteFile(lockPath, []byte(strings.Join(lines, "\n")+"\n"), 0o644)
+	fmt.Printf("wrote %s: %d obligations, %d not lockable\n", lockPath, len(lines), bad)
+	return 0
+}
+
+func cmdSelftest(args []string) int { return runSelftest(args) }
